@@ -103,7 +103,8 @@ class ChromosomeSync(Harness):
     def skeletons(self, tier, seed):
         ms = (0, 1, 2, 3) if tier == "quick" else (0, 1, 2, 3, 4)
         return [dict(api=api, m=m) for api in ("iter_chromosomes", "synched_stream", "left_join") for m in ms] + \
-               [dict(api="iter_chromosomes", m=m, derived_first=True) for m in (1, 2)]
+               [dict(api="iter_chromosomes", m=m, derived_first=True) for m in (1, 2)] + \
+               [dict(api="iter_chromosomes", m=m, lenient=how) for m in (1, 2) for how in ("list", "iterator")]
 
     def inputs(self, skel, V):
         hi = len(NAMES) - 1 if skel["api"] != "left_join" else UNK
@@ -122,6 +123,9 @@ class ChromosomeSync(Harness):
             gc = gcm.GenomeContext.from_dict({"chr1": 10, "chr2": 10, "chr10": 10, "chr1_alt": 5})
             if skel.get("derived_first"):
                 gc.with_ignored_added(["chrUn"])        # a more lenient context is derived first; the original must stay as strict as it was
+            if skel.get("lenient"):
+                # the context derived with an extra ignored name (given as a list / as a one-shot iterator): chrUn is now as ignored as chr1_alt
+                gc = gc.with_ignored_added(["chrUn"] if skel["lenient"] == "list" else iter(["chrUn"]))
             old = gcm.groupby
             gcm.groupby = lambda data, field=None: iter(data)
             try:
@@ -154,6 +158,8 @@ class ChromosomeSync(Harness):
         disorder = z_or([z3.And(in_genome(g[a]), in_genome(g[b]), g[a] > g[b]) for a, b in itertools.combinations(range(m), 2)])
         ignored_ok = skel["api"] == "iter_chromosomes"      # only the genome context has the notion of ignored names
         foreign = unknown if ignored_ok else z_or([z3.Or(t == UNK, t == IGN) for t in g])
+        if skel.get("lenient"):
+            foreign = z3.BoolVal(False)
         if isinstance(out, Exc):
             # an error is only legitimate when the order is incompatible or a name is neither in the genome nor ignored
             return z3.Or(foreign, disorder)
@@ -176,7 +182,7 @@ class ChromosomeSync(Harness):
                 conj.append(g[t] == c)                               # the group yielded for contig c carries its name
         for j in range(m):
             here = z3.BoolVal(j in yielded)
-            conj.append(z3.Or(here, g[j] == IGN) if ignored_ok else here)   # no group silently left out
+            conj.append(z3.Or(here, g[j] == IGN, z3.And(z3.BoolVal(bool(skel.get("lenient"))), g[j] == UNK)) if ignored_ok else here)   # no group silently left out
         return z_and(conj)
 
     def oracle(self, skel, cx, cout):
@@ -184,7 +190,7 @@ class ChromosomeSync(Harness):
         names = [NAMES[cx[f"g{j}"]] for j in range(m)]
         pos = [GENOME.index(n) for n in names if n in GENOME]
         disorder = pos != sorted(pos)
-        foreign = any(n == "chrUn" or (n == "chr1_alt" and skel["api"] != "iter_chromosomes") for n in names)
+        foreign = any((n == "chrUn" and not skel.get("lenient")) or (n == "chr1_alt" and skel["api"] != "iter_chromosomes") for n in names)
         if isinstance(cout, Exc):
             return None if (disorder or foreign) else f"{skel['api']}: groups {names} are compatible with genome {GENOME} but an error was raised: {cout}"
         yielded = cout["yielded"] if "yielded" in cout else [r[2] for r in cout["joined"]]
